@@ -79,6 +79,11 @@ class SeqTheory:
                     z3.Implies(z3.And(0 <= i, i < Len(s), 0 <= k, k < Len(s)),
                                Idx(Upd(s, i, x), k) == z3.If(k == i, x, Idx(s, k))),
                     patterns=[Idx(Upd(s, i, x), k)]))
+        # reverse direction: an index into the original is an index into the update
+        A(z3.ForAll([s, i, x, k],
+                    z3.Implies(z3.And(0 <= i, i < Len(s), 0 <= k, k < Len(s)),
+                               Idx(Upd(s, i, x), k) == z3.If(k == i, x, Idx(s, k))),
+                    patterns=[z3.MultiPattern(Upd(s, i, x), Idx(s, k))]))
         A(z3.ForAll([x, n], z3.Implies(n >= 0, Len(Rep(x, n)) == n), patterns=[Rep(x, n)]))
         A(z3.ForAll([x, n, k], z3.Implies(z3.And(0 <= k, k < n), Idx(Rep(x, n), k) == x),
                     patterns=[Idx(Rep(x, n), k)]))
@@ -90,6 +95,14 @@ class SeqTheory:
                                                  patterns=[Idx(a, k), Idx(b, k)])),
                     patterns=[Eq(a, b)]))
         A(z3.ForAll([a, b], z3.Implies(Eq(a, b), a == b), patterns=[Eq(a, b)]))
+        if not self.byte_range and E.name() == "Ref":
+            # Congruence made explicit for sequences of references (ring buffers, queues): two index terms into the
+            # same sequence that arithmetic can prove equal (e.g. (o + n) % 65536 % C and (o + n) % C) denote the same
+            # element.  Logically a tautology; as a triggered axiom it makes the solver decide the atom i == j, which
+            # z3's arithmetic does not propagate to the E-graph by itself for mod/div terms.
+            j = z3.Int("j")
+            A(z3.ForAll([s, i, j], z3.Implies(i == j, Idx(s, i) == Idx(s, j)),
+                        patterns=[z3.MultiPattern(Idx(s, i), Idx(s, j))]))
         if self.byte_range:
             A(z3.ForAll([s, k], z3.Implies(z3.And(0 <= k, k < Len(s)),
                                            z3.And(0 <= Idx(s, k), Idx(s, k) < 256)),
@@ -150,6 +163,9 @@ class Prelude:
         A(z3.ForAll([a, d], z3.Implies(z3.And(a >= 0, d >= 0),
                                        self.testbit(a, d) == ((a / self.pow2(d)) % 2 == 1)),
                     patterns=[self.testbit(a, d)]))
+        # Wit(x): trigger-only predicate, true everywhere (see exists()/wit() in the contract language)
+        self.Wit = self.func("Wit", Int, Bool)
+        A(z3.ForAll([a], self.Wit(a), patterns=[self.Wit(a)]))
         # string theory (minimal)
         self.strlen = z3.Function("strlen", self.Str, Int)
         self.utf8 = z3.Function("utf8", self.Str, self.Bytes.S)
